@@ -63,10 +63,18 @@ def canon_result(r, yarl):
 
 
 def clear_all_lru(yarl):
-    from yarl import _parse, _url
-    for f in (_url.encode_url, _url.pre_encoded_url, _url.build_pre_encoded_url, _url.from_parts, _parse.split_netloc,
-              _parse.make_netloc, _url._encode_host, _url._idna_encode, _url._idna_decode):
-        f.cache_clear()
+    """empty EVERY functools cache of the yarl modules -- discovered dynamically, so a cache added by a later change is
+    found too (the cold run must really be cold)"""
+    import sys
+    for name, mod in list(sys.modules.items()):
+        if name == "yarl" or name.startswith("yarl."):
+            for obj in list(vars(mod).values()):
+                cc = getattr(obj, "cache_clear", None)
+                if callable(cc) and hasattr(obj, "cache_info"):
+                    try:
+                        cc()
+                    except Exception:  # noqa: BLE001
+                        pass
 
 
 def gen_history(rnd, nsteps):
@@ -198,9 +206,12 @@ def run_history(yarl, steps, mode, run_id, rnd):
                     from urllib.parse import SplitResult
                     b = yarl.URL(SplitResult(v[0], v[1], "/" if v[2] == "" else "", v[3], v[4]), encoded=True)
                     pair = [a, b] if st["order"] else [b, a]
-                    for w in pair:
-                        res, u = outcome_of(lambda: U._apply(w, st["st"], None))
-                        facts.append({"k": "call:" + J([st["st"], val5(w), None]), "v": J(canon_result(res, yarl))})
+                    # both orders, each from empty caches: whichever of two EQUAL URLs is seen first must not decide the other's result
+                    for order in (pair, pair[::-1]):
+                        clear_all_lru(yarl)
+                        for w in order:
+                            res, u = outcome_of(lambda: U._apply(w, st["st"], None))
+                            facts.append({"k": "call:" + J([st["st"], val5(w), None]), "v": J(canon_result(res, yarl))})
             elif k == "read":
                 j = slot(st["slot"])
                 o = obs(pool[j], st["fields"])
